@@ -139,10 +139,15 @@ def run_cart_surfaces(shape):
         with contextlib.redirect_stdout(io.StringIO()):
             fg = _cs_grid(F, shape)          # the grid itself (directions, radii, Qhull) is a concrete run of the real constructors
             pg = fg.position_grid
-            pg.get_adjacency_of_position_grid()
-            # the assembly of the face areas runs on the array model (symbolic areas may be stored into fresh arrays)
-            with bound(F, get_polygon_area=area_of, order_points=lambda pts: pts, print=noprint, np=NPProxy()):
-                S = pg.get_borders_of_position_grid()
+            A0 = pg.get_adjacency_of_position_grid()      # concrete: plain numpy / scipy (its content is C05's and the other C02 shapes' matter)
+            # the assembly of the face areas runs on the array model (symbolic areas may be stored into fresh arrays); the adjacency it
+            # asks for is the concrete one computed above -- the array model and real scipy.sparse are not mixed inside that computation
+            pg.get_adjacency_of_position_grid = lambda: A0.copy()
+            try:
+                with bound(F, get_polygon_area=area_of, order_points=lambda pts: pts, print=noprint, np=NPProxy()):
+                    S = pg.get_borders_of_position_grid()
+            finally:
+                del pg.get_adjacency_of_position_grid
             A = pg.get_adjacency_of_position_grid()
             return pg, S, A
 
